@@ -238,9 +238,9 @@ def future_mask(ir):
     first_f = next((k for k, p in enumerate(ir['pts']) if p >= ir['sf']), len(ir['pts']))
     lab = {int(i): bool(t >= first_f) for i, t in zip(fr.index, fr['time_step'].values)}
     n = len(op.c)
-    by_label = np.array([lab.get(j, False) for j in range(n)])
-    by_pos = np.array([bool(t >= first_f) for t in fr['time_step'].values])
-    return by_label, by_pos, first_f, set(range(n)) - set(lab)
+    by_label = np.array([lab.get(j, False) for j in range(n)], dtype=bool)
+    # since commit c776509 make_slp builds the mask over all variables from the labels; variables without row are present
+    return by_label, by_label, first_f, set(range(n)) - set(lab)
 
 
 def structure_facts(ir):
@@ -251,10 +251,7 @@ def structure_facts(ir):
     multi = bool(op.mapping.index.duplicated().any())
     info = {'rowless': sorted(rowless), 'multi_row': multi, 'first_future': first_f, 'n': len(op.c)}
     if 'error' in ir:
-        if ir['error'] == 'index' and rowless:
-            v.append({'oracle': 'slp_builds', 'detail': 'make_slp raises %s: variables %s of the problem have no mapping row (boolean mask of length %d for %d variables)' % (
-                ir['error_text'], sorted(rowless)[:6], len(by_pos), len(op.c)), 'facts': {'kind': 'rowless_variable'}})
-        elif ir['error'] == 'index' and first_f >= len(ir['pts']) and ir['sf'] < ir['end']:
+        if ir['error'] == 'index' and first_f >= len(ir['pts']) and ir['sf'] < ir['end']:
             v.append({'oracle': 'slp_builds', 'detail': 'make_slp raises %s: start_future lies strictly inside the last step, the future grid is empty (assertion start_future < end passes)' % ir['error_text'],
                       'facts': {'kind': 'empty_future'}})
         elif ir['error'] == 'index' and any(len(c) != len(op.c) for c in ir['c_samples']):
@@ -264,12 +261,21 @@ def structure_facts(ir):
         elif ir['error'] == 'assert' and ir['sf'] >= ir['end']:
             pass   # documented rejection
         else:
-            v.append({'oracle': 'slp_builds', 'detail': 'make_slp raises %s' % ir['error_text'], 'facts': {'kind': 'other_error', 'class': ir['error']}})
+            v.append({'oracle': 'slp_builds', 'detail': 'make_slp raises %s (variables without mapping row: %s)' % (ir['error_text'], sorted(rowless)[:6]),
+                      'facts': {'kind': 'other_error', 'class': ir['error']}})
         return v, info
-    if len(by_pos) == len(by_label) and (by_pos != by_label).any():
-        j = int(np.where(by_pos != by_label)[0][0])
-        v.append({'oracle': 'slp_future_vars', 'detail': 'mask is applied by position but built in mapping order: variable %d is treated as %s although its first mapping row says %s' % (
-            j, 'future' if by_pos[j] else 'present', 'future' if by_label[j] else 'present'), 'facts': {'kind': 'mask_misaligned'}})
+    # the SLP has the original variables plus nS copies of the future ones, with tiled bounds
+    ops = ir['op_slp']
+    nS, nf, n = len(ir['c_samples']), int(by_label.sum()), len(op.c)
+    if len(ops.c) != n + nS * nf or len(ops.l) != len(ops.c) or len(ops.u) != len(ops.c) or ops.A.shape != ((nS + 1) * op.A.shape[0], len(ops.c)):
+        v.append({'oracle': 'slp_future_vars', 'detail': 'SLP has %d variables / matrix %s; expected %d + %d * %d future variables and %d rows' % (
+            len(ops.c), ops.A.shape, n, nS, nf, (nS + 1) * op.A.shape[0]), 'facts': {'kind': 'shape'}})
+    elif nS and not (np.array_equal(ops.l[n:], np.tile(op.l[by_label], nS)) and np.array_equal(ops.u[n:], np.tile(op.u[by_label], nS))):
+        v.append({'oracle': 'slp_future_vars', 'detail': 'bounds of the copies are not the bounds of the future variables', 'facts': {'kind': 'bounds'}})
+    # every mapping label is a variable; the copy rows point at the copies
+    lab = ops.mapping.index.values.astype(np.int64)
+    if len(lab) and (lab.min() < 0 or lab.max() >= len(ops.c)):
+        v.append({'oracle': 'slp_mapping_faithful', 'detail': 'mapping label %d outside the %d variables of the SLP' % (int(lab.max()), len(ops.c)), 'facts': {'kind': 'label_range'}})
     return v, info
 
 
@@ -384,7 +390,7 @@ def oracle(case, ir, drv=None, max_k=3):
             viol.append({'oracle': 'ev_le_slp', 'detail': 'fixing the present to the optimum of scenario %d gives mean value %.8g > SLP optimum %.8g (tolerance %.2g)' % (k, e, V_slp, 2 * tol), 'facts': {'kind': 'eev', 'k': k}})
     obs['EEV'] = eev
     obs['chain_strict'] = bool(eev and eev[0] is not None and (V_slp - eev[0] > 10 * tol or WS - V_slp > 10 * tol))
-    # ---- read-out: dispatch table of the SLP result
+    # ---- read-out of the SLP result (also with several mapping rows per variable and row-less variables)
     multi = info['multi_row']
     try:
         with Quiet():
@@ -393,14 +399,35 @@ def oracle(case, ir, drv=None, max_k=3):
     except Exception as e:
         out = None
         obs['readout'] = type(e).__name__
-        kind = 'slp_multi_row_readout' if (multi and isinstance(e, IndexError)) else 'slp_readout_error'
-        viol.append({'oracle': 'slp_readout', 'detail': 'extract_output on the SLP result raises %s: %s (mapping has %d rows for %d variables; after make_slp the mapping index enumerates rows)' % (
-            type(e).__name__, str(e)[:80], len(ops.mapping), len(ops.c)), 'facts': {'kind': kind}})
-    if out is not None and not multi and not rowless and (by_pos == by_label).all():
+        viol.append({'oracle': 'slp_readout', 'detail': 'extract_output on the SLP result raises %s: %s (mapping has %d rows, %d distinct labels, %d variables)' % (
+            type(e).__name__, str(e)[:80], len(ops.mapping), ops.mapping.index.nunique(), len(ops.c)), 'facts': {'kind': 'slp_readout_error', 'multi_row': multi}})
+    if out is not None:
         disp = out['dispatch']
         cols = impl.disp_cols(portf)
         m0 = op.mapping
         T = tg.T
+        # a PRESENT variable (first row in the present) with a further mapping row on a future step (coarse asset
+        # frequency whose step straddles start_future): its single contribution to that step is divided as well (F-17h)
+        straddle = bool(any((not mask[int(j)]) and int(t) >= first_f for j, t in zip(m0.index, m0['time_step'].values)))
+        obs['straddling_variable'] = straddle
+        # (a) DCF table sums to the value
+        tot = float(np.nansum(out['DCF'].values))
+        if abs(tot - V_slp) > 2 * tol:
+            viol.append({'oracle': 'slp_dcf_total', 'detail': 'SLP value %.8g but the DCF table sums to %.8g' % (V_slp, tot), 'facts': {'kind': 'dcf_total', 'multi_row': multi, 'rowless': bool(rowless)}})
+        # (b) dispatch balances at every node (present steps: common decision; future steps: mean of balanced scenarios)
+        dsc = max(1.0, float(np.abs(disp.values).max()) if disp.size else 1.0)
+        for nd in portf.nodes:
+            cs_ = [c for (a, nn), c in cols.items() if nn == nd]
+            if len(set(cs_)) != len(cs_) or any(c not in disp.columns for c in cs_):
+                continue
+            bal = np.sum([disp[c].values.astype(float) for c in cs_], axis=0)
+            bad = np.where(np.abs(bal) > 2e-6 * dsc)[0]
+            if len(bad):
+                t = int(bad[0])
+                viol.append({'oracle': 'slp_dispatch_balance', 'detail': 'node %s step %d (%s): SLP dispatch table sums to %.6g' % (nd, t, 'future' if t >= first_f else 'present', bal[t]),
+                             'facts': {'kind': 'dispatch_balance', 'future': bool(t >= first_f), 'multi_row': multi, 'straddling_variable': straddle}})
+                break
+        # (c) dispatch table = present decision / mean over the scenarios of the future decisions
         for (a, nd), col in cols.items():
             if list(cols.values()).count(col) > 1 or col not in disp.columns:
                 continue
@@ -414,12 +441,14 @@ def oracle(case, ir, drv=None, max_k=3):
                     want[t] += f * float(np.mean([x[j] for x in xs]))
                 else:
                     want[t] += f * float(res_slp.x[j])
+            # a step is divided by nS+1 as soon as ANY mapping row with a sample id sits on it; a present variable
+            # (first row in the present) with a further row on a future step is therefore divided as well
             got = disp[col].values.astype(float)
             bad = np.where(np.abs(got - want) > 1e-6 * max(1.0, float(np.abs(want).max())))[0]
             if len(bad):
                 t = int(bad[0])
-                viol.append({'oracle': 'slp_dispatch_mean', 'detail': 'dispatch %s step %d (%s): table says %.8g, mean over the %d scenarios is %.8g' % (
-                    col, t, 'future' if t >= first_f else 'present', got[t], nS + 1, want[t]), 'facts': {'kind': 'dispatch_mean', 'future': t >= first_f}})
+                viol.append({'oracle': 'slp_dispatch_mean', 'detail': 'dispatch %s step %d (%s): table says %.8g, expected %.8g (present decision / mean over the %d scenarios)' % (
+                    col, t, 'future' if t >= first_f else 'present', got[t], want[t], nS + 1), 'facts': {'kind': 'dispatch_mean', 'future': bool(t >= first_f), 'multi_row': multi, 'straddling_variable': straddle}})
                 break
     if out is not None and drv is not None:
         viol += [{'oracle': 'corr', 'detail': d, 'facts': {'kind': 'readout_corr'}} for d in corr_readout(ir, res_slp, out, drv)]
@@ -498,7 +527,7 @@ def run_case(case, drv, with_oracle=True):
         f.append('cost-samples-error:' + ir['cost_samples_error'])
         inactive = [a.name for a in ir['rec']['portf'].assets if len(ir['rec']['captured'][a.name].c) == 0]
         r['violations'].append({'oracle': 'cost_samples', 'detail': 'create_cost_samples fails (%s) although the full set-up works; assets without variables (window outside the horizon): %s' % (
-            ir['cost_samples_error'], inactive), 'facts': {'kind': 'cost_samples_error', 'class': ir['cost_samples_error'], 'inactive_asset': bool(inactive)}})
+            ir['cost_samples_error'], inactive), 'facts': {'kind': 'cost_samples_error', 'class': ir['cost_samples_error']}})
         return r
     mr = drv.ok(request(case, ir))
     r['disagreements'] += [{'component': 'make_slp', 'detail': d} for d in compare(case, ir, mr)]
